@@ -1,7 +1,122 @@
-(** non-vacuity for C03's glue theorems: concrete stage verdicts meeting the hypotheses *)
-From Coq Require Import List.
-From ApiFu Require Import Pipe.PipelineModel Pipe.PipelineProofs.
+(** non-vacuity for C03: the composed model run from BYTES on a concrete schema (both encodings),
+    reaching every outcome the theorems speak about; then the round-1 glue examples. *)
+From Coq Require Import List NArith ZArith Bool String.
+From ApiFu Require Import Base.Sexp.
+From ApiFu Require Syn.Ast Vld.Ast Exe.ExecData Exe.ExecModel Exe.ExecHyps.
+From ApiFu Require Import Pipe.PipelineModel Pipe.PipelineProofs Pipe.Convert Pipe.Compose Pipe.ComposeProofs Pipe.ComposeCheck.
+Import ListNotations.
+Open Scope string_scope.
 
+Definition n (s : string) : bytes := Vld.Ast.bs s.
+
+(** type Query { i: Int  nn: Int!  x: Float  o: Obj }  type Obj { i: Int }
+    directive @skip(if: Boolean!), @include(if: Boolean!) on FIELD | FRAGMENT_SPREAD | INLINE_FRAGMENT *)
+Definition vfd (t : Vld.Ast.sty) : Vld.Ast.field_def := {| Vld.Ast.f_type := t; Vld.Ast.f_args := []; Vld.Ast.f_req := [] |}.
+Definition vty (b : Vld.Ast.type_body) : Vld.Ast.type_def := {| Vld.Ast.t_req := []; Vld.Ast.t_body := b |}.
+Definition if_arg : list (Vld.Ast.name * Vld.Ast.input_def) :=
+  [(n "if", {| Vld.Ast.in_type := Vld.Ast.StNonNull (Vld.Ast.StNamed (n "Boolean")); Vld.Ast.in_default := Vld.Ast.DNone |})].
+Definition cond_dir : Vld.Ast.dir_def :=
+  {| Vld.Ast.dd_args := if_arg; Vld.Ast.dd_locs := [Vld.Ast.LField; Vld.Ast.LFragmentSpread; Vld.Ast.LInlineFragment] |}.
+
+Definition ex_VS : Vld.Ast.schema :=
+  {| Vld.Ast.s_types :=
+       [ (n "Int", vty (Vld.Ast.TScalar Vld.Ast.SInt)); (n "Float", vty (Vld.Ast.TScalar Vld.Ast.SFloat));
+         (n "String", vty (Vld.Ast.TScalar Vld.Ast.SString)); (n "Boolean", vty (Vld.Ast.TScalar Vld.Ast.SBoolean));
+         (n "Query", vty (Vld.Ast.TObject [ (n "i", vfd (Vld.Ast.StNamed (n "Int")));
+                                            (n "nn", vfd (Vld.Ast.StNonNull (Vld.Ast.StNamed (n "Int"))));
+                                            (n "x", vfd (Vld.Ast.StNamed (n "Float")));
+                                            (n "o", vfd (Vld.Ast.StNamed (n "Obj"))) ] []));
+         (n "Obj", vty (Vld.Ast.TObject [ (n "i", vfd (Vld.Ast.StNamed (n "Int"))) ] [])) ];
+     Vld.Ast.s_query := n "Query"; Vld.Ast.s_mutation := None; Vld.Ast.s_subscription := None;
+     Vld.Ast.s_directives := [ (n "skip", cond_dir); (n "include", cond_dir) ];
+     Vld.Ast.s_meta := []; Vld.Ast.s_impls := [] |}.
+
+Definition ex_ES : Exe.ExecData.schema :=
+  {| Exe.ExecData.types :=
+       [ (n "Int", Exe.ExecData.NScalar Exe.ExecData.KInt); (n "Float", Exe.ExecData.NScalar Exe.ExecData.KFloat);
+         (n "String", Exe.ExecData.NScalar Exe.ExecData.KString); (n "Boolean", Exe.ExecData.NScalar Exe.ExecData.KBoolean);
+         (n "Query", Exe.ExecData.NObject [ (n "i", Exe.ExecData.StNamed (n "Int"));
+                                            (n "nn", Exe.ExecData.StNonNull (Exe.ExecData.StNamed (n "Int")));
+                                            (n "x", Exe.ExecData.StNamed (n "Float"));
+                                            (n "o", Exe.ExecData.StNamed (n "Obj")) ] []);
+         (n "Obj", Exe.ExecData.NObject [ (n "i", Exe.ExecData.StNamed (n "Int")) ] []) ];
+     Exe.ExecData.query := n "Query"; Exe.ExecData.mutation := None; Exe.ExecData.subscription := None |}.
+
+Example ex_schema_hypothesis : Exe.ExecHyps.type_names_okb ex_ES = true.
+Proof. vm_compute. reflexivity. Qed.
+Example ex_schemas_agree : schemas_agree ex_VS ex_ES = true.
+Proof. vm_compute. reflexivity. Qed.
+
+Definition int_ (z : Z) : Exe.ExecData.outcome := Exe.ExecData.OLeaf (Exe.ExecData.GInt Exe.ExecData.IInt z).
+(** the root value: i = 7, nn resolves to nil, x = NaN, o = an Obj with i = 8 *)
+Definition ex_W : Exe.ExecData.outcome :=
+  Exe.ExecData.OObj (n "Query")
+    [ (n "i", int_ 7); (n "nn", Exe.ExecData.ONil);
+      (n "x", Exe.ExecData.OLeaf (Exe.ExecData.GF64 Exe.ExecData.NaN));
+      (n "o", Exe.ExecData.OObj (n "Obj") [ (n "i", int_ 8) ]) ].
+
+Definition run_ex (q : string) (op : string) (VE : option Exe.ExecData.env) : presult :=
+  pipeline_model ex_VS [] ex_ES (n q) (n op) VE ex_W.
+
+(** executed with data, fragments and a variable condition included *)
+Example ex_executed :
+  run_ex "query Q($b: Boolean!) { i ...F o @include(if: $b) { i } } fragment F on Query { j: i @skip(if: false) }" ""
+         (Some [(n "b", Some true)])
+  = PExecuted (Some (Exe.ExecData.JObj [ (n "i", Exe.ExecData.JInt 7); (n "j", Exe.ExecData.JInt 7);
+                                         (n "o", Exe.ExecData.JObj [ (n "i", Exe.ExecData.JInt 8) ]) ])) [].
+Proof. vm_compute. reflexivity. Qed.
+
+(** a NaN result never reaches the data: null and an error instead (defect 7 repaired) *)
+Example ex_nan_is_error :
+  exists e, run_ex "{ i x }" "" (Some [])
+            = PExecuted (Some (Exe.ExecData.JObj [ (n "i", Exe.ExecData.JInt 7); (n "x", Exe.ExecData.JNull) ])) [e].
+Proof. eexists. vm_compute. reflexivity. Qed.
+
+(** a null at a non-null root field: no data, one error *)
+Example ex_null_data : exists e, run_ex "{ i nn }" "" (Some []) = PExecuted None [e].
+Proof. eexists. vm_compute. reflexivity. Qed.
+
+(** syntax error: the text ends inside the selection set; unknown field; unknown operation name;
+    variable coercion refused *)
+Example ex_syntax : exists e, run_ex "{ i o { i }" "" (Some []) = PSyntax e [].
+Proof. eexists. vm_compute. reflexivity. Qed.
+Example ex_bytes_garbage : exists e es, pipeline_model ex_VS [] ex_ES [255; 0; 34; 123]%N [] (Some []) ex_W = PSyntax e es.
+Proof. eexists. eexists. vm_compute. reflexivity. Qed.
+Example ex_invalid : exists e, run_ex "{ i zz }" "" (Some []) = PInvalid e [].
+Proof. eexists. vm_compute. reflexivity. Qed.
+Example ex_leaf_selection_invalid : exists e es, run_ex "{ i { i } o }" "" (Some []) = PInvalid e es.
+Proof. eexists. eexists. vm_compute. reflexivity. Qed.
+Example ex_no_operation : exists e, run_ex "query A { i } query B { nn }" "C" (Some []) = PExecuted None [e].
+Proof. eexists. vm_compute. reflexivity. Qed.
+Example ex_vars_rejected : run_ex "query A($b: Boolean!) { i @skip(if: $b) }" "" None = PVarsRejected.
+Proof. vm_compute. reflexivity. Qed.
+
+(** a nullable variable with a default, explicitly null: outside C01's hypotheses, still answered *)
+Example ex_unevaluable :
+  exists r, run_ex "query A($b: Boolean = true) { i @skip(if: $b) nn }" "" (Some [(n "b", None)]) = PUnevaluable r.
+Proof. eexists. vm_compute. reflexivity. Qed.
+
+(** the hypothesis of C03_pipeline_total is satisfiable, and its conclusion is the first disjunct *)
+Example ex_total_instance :
+  is_response (run_ex "{ i o { i } }" "" (Some [])) = true /\
+  data_or_errors_p (run_ex "{ i nn }" "" (Some [])) = true /\
+  serialisable_p (run_ex "{ i x }" "" (Some [])) = true.
+Proof. vm_compute. auto. Qed.
+
+(** the stage-contract check is a real check: the executor encoding of a DIFFERENT schema (Obj
+    without its field) makes the validated document fail [doc_ok] *)
+Definition ex_ES_wrong : Exe.ExecData.schema :=
+  {| Exe.ExecData.types :=
+       [ (n "Int", Exe.ExecData.NScalar Exe.ExecData.KInt);
+         (n "Query", Exe.ExecData.NObject [ (n "i", Exe.ExecData.StNamed (n "Int")); (n "o", Exe.ExecData.StNamed (n "Obj")) ] []);
+         (n "Obj", Exe.ExecData.NObject [] []) ];
+     Exe.ExecData.query := n "Query"; Exe.ExecData.mutation := None; Exe.ExecData.subscription := None |}.
+Example ex_contract_broken :
+  pipeline_model ex_VS [] ex_ES_wrong (n "{ o { i } }") [] (Some []) ex_W = PContractBroken CDocOk /\
+  schemas_agree ex_VS ex_ES_wrong = false.
+Proof. vm_compute. auto. Qed.
+
+(** ** round 1: the glue over stage verdicts *)
 Example executed_with_field_error :
   no_crash (Returned 0 : parse_out) /\ no_crash (Returned 0 : validate_out) /\
   no_crash (Returned (true, 1) : exec_out) /\ exec_contract (Returned (true, 1)) /\
